@@ -436,6 +436,52 @@ def session(ctx, c02, spec0, tier):
             run.oracle_failure(case, f"after step {kind} the shared region's magnitudes are not the edges last bound to it (num_mag_bins={getattr(R, 'num_mag_bins', None)}, expected {len(cur)})")
             return
     run.evaluations += len(steps) * len(P)
+    # SYSTEMATIC tail (every session, not left to the draw): each API that reads the region's edges is called on ONE catalog object
+    # before and after the edges of the SAME region object are re-bound in each of the three ways pyCSEP and users do it —
+    # create_space_magnitude_region, a new GriddedForecast(region=R, magnitudes=…), plain `R.magnitudes = …` — and judged by the
+    # oracle on the edges in force. (The seeded change C02_9 — get_mag_idx memoised per region OBJECT — depended on the drawn order.)
+    c = cats[0]
+    for way in ("create_space_magnitude_region", "GriddedForecast", "assignment"):
+        base = numpy.array(R.magnitudes, dtype=float)
+        new = base + rng.choice([h, -h, 2 * h]) if way != "GriddedForecast" else base[: max(3, len(base) - 1)].copy() + h
+        case = dict(case0, steps=steps + ["systematic:" + way])
+        try:
+            g_old = grid_now(base)
+            before = {"get_mag_idx": numpy.asarray(c.get_mag_idx()), "to_dataframe.mag_id": numpy.asarray(c.to_dataframe()["mag_id"]),
+                      "magnitude_counts": numpy.asarray(c.magnitude_counts(), dtype=float)}
+            if g_old.premise("f64", None) and not _judge(c02, run, case, "get_mag_idx (before re-binding)", g_old, "f64", None, P, before["get_mag_idx"]):
+                return
+            if way == "create_space_magnitude_region":
+                regions.create_space_magnitude_region(R, new)
+            elif way == "GriddedForecast":
+                GriddedForecast(data=numpy.ones((2, len(new))), region=R, magnitudes=new)
+            else:
+                R.magnitudes = new
+                R.num_mag_bins = len(new)
+            g_new = grid_now(numpy.array(R.magnitudes, dtype=float))          # whatever the region really carries now
+            if not g_new.premise("f64", None):
+                break
+            for api, fn in (("get_mag_idx", lambda: numpy.asarray(c.get_mag_idx())),
+                            ("to_dataframe()['mag_id']", lambda: numpy.asarray(c.to_dataframe()["mag_id"]))):
+                if not _judge(c02, run, case, f"{api} after the region's edges were re-bound by {way}", g_new, "f64", None, P, fn()):
+                    return
+            cnt = numpy.asarray(c.magnitude_counts(), dtype=float)
+            al = [c02.allowed_val(g_new, "f64", None, True, x) for x in P]
+            lo, hi = numpy.zeros(g_new.n), numpy.zeros(g_new.n)
+            for a in al:
+                for k in a:
+                    if k >= 0:
+                        hi[k] += 1
+                if len(a) == 1 and min(a) >= 0:
+                    lo[min(a)] += 1
+            if cnt.shape != (g_new.n,) or numpy.any(cnt < lo) or numpy.any(cnt > hi):
+                run.oracle_failure(case, f"magnitude_counts() after the region's edges were re-bound by {way}: {cnt.tolist()[:10]}…; per bin between {lo.tolist()[:10]} and {hi.tolist()[:10]}")
+                return
+            run.evaluations += 3
+        except Exception as e:
+            run.oracle_failure(case, f"{type(e).__name__}: {str(e)[:160]} in the systematic re-binding tail ({way})")
+            return
+    run.count("session_systematic_rebinding")
 
 
 def nonfinite_and_sizes(ctx, c02, tier):
